@@ -17,7 +17,6 @@ import (
 	"time"
 
 	"github.com/ovh/kmip-go"
-	"github.com/ovh/kmip-go/kmipclient"
 	"github.com/ovh/kmip-go/payloads"
 	"github.com/ovh/kmip-go/ttlv"
 )
@@ -214,6 +213,12 @@ func (c *lcConn) Read(p []byte) (int, error) {
 	n, err := c.Conn.Read(p)
 	if e := c.dead.Load(); e != nil {
 		return 0, *e
+	}
+	if f == nil {
+		// a fault armed while this Read was blocked applies when its data arrives
+		if f = c.net.match('r', c.idx, k); f != nil && f.timing != "data" {
+			f = nil
+		}
 	}
 	if f != nil && err == nil {
 		c.net.fire(f)
@@ -424,8 +429,6 @@ func lcYield(point string, obj any) {
 		fn()
 	}
 }
-
-func lcInstallYield() { kmipclient.VerifYield = lcYield }
 
 func newLcDirector() *lcDirector { return &lcDirector{hits: map[string]int{}} }
 
